@@ -186,6 +186,8 @@ func (g *c19Gen) program() (string, bool) {
 	return b.String(), pipes
 }
 
+var c19GetTypeRx = regexp.MustCompile("(get-type[ \t]+[\"'(]*)c19p")
+
 var (
 	c19CrashRx = regexp.MustCompile(`Murex has crashed|panic caught|fatal error:|goroutine \d+ \[running\]|panic:|runtime error`)
 	c19FrameRx = regexp.MustCompile(`(?:function: |^|\n)github\.com/lmorg/murex/([A-Za-z0-9_/.\-]+\.[A-Za-z0-9_().*]+)`)
@@ -229,6 +231,10 @@ func init() {
 			for i := 0; i < n; i++ {
 				g := &c19Gen{r: x.Rng("prog", i)}
 				src, pipes := g.program()
+				// `get-type <pipe>` waits, by design, until the named pipe has a data type or is closed; the
+				// program's own pipe has no writer at that point (`pipe` statements even run ahead of the
+				// block), so that call would block on itself: it gets a name that is not a pipe
+				src = c19GetTypeRx.ReplaceAllString(src, "${1}c19q")
 				// named pipes are process-global: a private name per program keeps programs independent (C26 covers their life cycle)
 				src = strings.ReplaceAll(src, "c19p", fmt.Sprintf("c19p%d", i))
 				c := &proto.Case{ID: fmt.Sprintf("c19-%d", i), Op: "prog", Block: src, TimeoutMs: 20000}
